@@ -237,7 +237,7 @@ def shapes(tier):
                             continue
                         out.append((nr, ncols, dt, t0, how))
     # beyond the stated family: more reactions than 2, more slots than 4 (explored to a shorter length, see run)
-    for nr, ncols in (((3, 5), (2, 7)) if tier == 'quick' else ((3, 5), (2, 7), (4, 6), (3, 9), (5, 3))):
+    for nr, ncols in (((3, 5), (2, 7), (3, 2), (4, 3)) if tier == 'quick' else ((3, 5), (2, 7), (3, 2), (4, 3), (4, 6), (3, 9), (5, 3), (6, 4))):
         for t0 in (0.0, 2.5):
             out.append((nr, ncols, 0.5, t0, 'ctor'))
     return out
@@ -249,7 +249,7 @@ def run(ctx):
     sh = shapes(ctx.tier)
     ctx.bounds = dict(history_length=L, pending_cap=cap, shapes=len(sh))
     ctx.rule = ('E3: explicit-state BFS on the real ArrayDelayQueue for every shape (1..2 reactions, 2..4 slots, dt in {0.25,0.5,1}, start '
-                'time in {0,2.5,-1}, constructed or re-timed; plus larger shapes (3 reactions x 5 slots, 2 x 7; thorough also 4 x 6, 3 x 9, 5 x 3) to a length 1-2 shorter); operations add(r, time) with time 2 and 0.3 slots in the past, on every '
+                'time in {0,2.5,-1}, constructed or re-timed; plus other shapes, among them more reactions than slots (3 reactions x 5 slots, 2 x 7, 3 x 2, 4 x 3; thorough also 4 x 6, 3 x 9, 5 x 3, 6 x 4) to a length 1-2 shorter); operations add(r, time) with time 2 and 0.3 slots in the past, on every '
                 'slot, 0.3 dt before/after every slot, 1 and 3 slots, 2^32 slots and infinitely far beyond the horizon; read-and-advance; copy; clear_copy; set_current_time (same, later, earlier) on the queue as it stands; '
                 'binomial_partition with every coin sequence (continuing on either part). After every transition the real queue is '
                 'drained and compared slot by slot (content and slot times) with the reference. States are merged on (pending counts '
